@@ -27,7 +27,16 @@ class LxmlEventHandler(XmlHandler):
         if isinstance(source, (etree._ElementTree, etree._Element)):
             ctx = etree.iterwalk(source, EVENTS)
         elif self.parser.config.process_xinclude:
-            tree = etree.parse(source, base_url=self.parser.config.base_url)  # nosec
+            xml_parser = etree.XMLParser(
+                remove_comments=True,
+                remove_pis=True,
+                load_dtd=self.parser.config.load_dtd,
+            )
+            tree = etree.parse(  # nosec
+                source,
+                parser=xml_parser,
+                base_url=self.parser.config.base_url,
+            )
             tree.xinclude()
             ctx = etree.iterwalk(tree, EVENTS)
         else:
@@ -36,6 +45,7 @@ class LxmlEventHandler(XmlHandler):
                 EVENTS,
                 recover=True,
                 remove_comments=True,
+                remove_pis=True,
                 load_dtd=self.parser.config.load_dtd,
             )
 
